@@ -984,6 +984,8 @@ func cmdC02(seed int64, tier, outDir string) {
 			return
 		}
 		cw.epilogue += "Definition c02_expected := Eval vm_compute in map c02_explain cases.\nPrint c02_expected.\n"
+		// the AST tie of the replayed case: its class (Run/C02Run.v c02_tie_class) and the tree the optimizer MODEL returns
+		cw.epilogue += "Definition c02_tie := Eval vm_compute in map (fun c => (c02_tie_class c, c02_model_tree c)) cases.\nPrint c02_tie.\n"
 		run.runCase(&p, 1)
 		finish()
 		return
